@@ -2,10 +2,10 @@
 
 A. Primitives of `autoarray/util/cholesky_funcs.py` the base engine does not read.
 
-(1) `a.size` of a rank-1 ndarray               == a.shape[0]                                   (ASSUMED: numpy's definition of
+(A1) `a.size` of a rank-1 ndarray              == a.shape[0]                                   (ASSUMED: numpy's definition of
                                                ndarray.size as the product of the dimensions; rank 1 only, other ranks are
                                                left to the base engine, i.e. rejected).
-(2) `math.sqrt(v)` of a real / int scalar      obligation `sqrt-domain@line`:  v >= 0   (math.sqrt raises ValueError on a
+(A2) `math.sqrt(v)` of a real / int scalar     obligation `sqrt-domain@line`:  v >= 0   (math.sqrt raises ValueError on a
                                                negative argument), value: the engine's own uninterpreted sqrt(v)
                                                (ASSUMED: math.sqrt and np.sqrt denote the same real function; the engine
                                                already reads np.sqrt / `** 0.5` that way).
@@ -244,7 +244,7 @@ if not getattr(calls, "_c05_do_call", False):
     calls._c05_do_call = True
 
 
-# ------------------------------------------------------------------------------------------- A (3) np.insert  (5) a.dot(b)
+# ------------------------------------------------------------------------------------------- (A3) np.insert  (A5) a.dot(b)
 def _np_insert(E, node, st):
     line = getattr(node, "lineno", E.cur_line)
     kw = {k.arg: k.value for k in node.keywords}
